@@ -16,13 +16,16 @@ LEVEL = 'exploration'
 T = {'L': DelegationType.LABEL, 'C': DelegationType.CAPACITY}
 DETAILS = {
     'L': [dict(vlan_range='100-200'), dict(ipv4_range='10.0.0.1-10.0.0.9', vlan=['1', '2']), dict(local_name='p"1\'é'),
-          dict(mac='00:11:22:33:44:55', bdf=['0000:41:00.0'])],
-    'C': [dict(core=2), dict(core=32, ram=128, disk=10 ** 6), dict(unit=1), dict(bw=2 ** 40, mtu=9000)],
+          dict(mac='00:11:22:33:44:55', bdf=['0000:41:00.0']),
+          # fields that are set, but to an empty string / an empty list: set is not the same as absent
+          dict(local_name='', vlan_range='100-200', vlan=[])],
+    'C': [dict(core=2), dict(core=32, ram=128, disk=10 ** 6), dict(unit=1), dict(bw=2 ** 40, mtu=9000), dict(cpu=1, burst_size=1)],
 }
 IDS = ('d1', 'd2', 'd3')
+NDET = 5
 # per-id variant: (format, pool, details-index)
 POOLS = ('p1', 'p2', '')      # the empty string is a pool name like any other (only the marker '_' is reserved)
-VARIANTS = [('S', None, i) for i in range(4)] + [('D', p, i) for p in POOLS for i in range(4)] + [('R', p, None) for p in POOLS]
+VARIANTS = [('S', None, i) for i in range(NDET)] + [('D', p, i) for p in POOLS for i in range(NDET)] + [('R', p, None) for p in POOLS]
 FMT = {'S': DelegationFormat.SinglePool, 'D': DelegationFormat.PoolDefinition, 'R': DelegationFormat.PoolReference}
 
 
@@ -218,7 +221,7 @@ def eval_pools(case):
     pools = Pools(atype=T[t])
     for i, (on, ref, did) in enumerate(fam):
         p = Pool(atype=T[t], pool_id=pname(i), delegation_id=did, defined_on=on, defined_for=list(ref))
-        p.set_pool_details(mk_details(t, i % 4))
+        p.set_pool_details(mk_details(t, i % NDET))
         pools.add_pool(pool=p)
     want = pools_describe(pools)
     pools.build_index_by_delegation_id()
@@ -305,7 +308,7 @@ def eval_pools(case):
             ps = Pools(atype=T[t])
             for i, (on, ref, did) in enumerate(f2):
                 p = Pool(atype=T[t], pool_id=pname(i), delegation_id=did, defined_on=on, defined_for=list(ref))
-                p.set_pool_details(mk_details(t, i % 4))
+                p.set_pool_details(mk_details(t, i % NDET))
                 ps.add_pool(pool=p)
             ps.build_index_by_delegation_id()
             return ps
